@@ -251,3 +251,23 @@ func vfCountRequests(ops []vfOp) int {
 	}
 	return n
 }
+
+// vfValidSessionProgram: every handle-using op names a slot defined by exactly one earlier
+// open/opendir (or a negative, deliberately bogus slot).
+func vfValidSessionProgram(sc *vfScenario) bool {
+	defined := map[int]int{}
+	for _, op := range sc.Ops {
+		switch op.K {
+		case "open", "opendir":
+			defined[op.H]++
+			if defined[op.H] > 1 {
+				return false
+			}
+		default:
+			if vfOpUsesHandle(op.K) && op.H >= 0 && defined[op.H] == 0 {
+				return false
+			}
+		}
+	}
+	return true
+}
